@@ -1,6 +1,7 @@
 package main
 
 import (
+	"crypto"
 	"crypto/ecdsa"
 	"crypto/elliptic"
 	"crypto/rand"
@@ -158,6 +159,7 @@ type CertSpec struct {
 	RawSAN              []*Node // if set, SAN built from these GeneralName nodes (overrides DNS/Emails/…)
 	RawIAN              []*Node
 	SelfSigned          bool
+	SelfSignKey         crypto.Signer // if set: a genuinely self-signed certificate with this key
 	KeyUsage            stdx509.KeyUsage
 	Serial              int64
 }
@@ -205,7 +207,13 @@ func BuildCert(s CertSpec) ([]byte, error) {
 	if pub == nil {
 		pub = &kitLeaf.PublicKey
 	}
-	der, err := stdx509.CreateCertificate(rand.Reader, tmpl, parent, pub, kitCAKey)
+	var signer crypto.Signer = kitCAKey
+	if s.SelfSignKey != nil {
+		parent = tmpl
+		pub = s.SelfSignKey.Public()
+		signer = s.SelfSignKey
+	}
+	der, err := stdx509.CreateCertificate(rand.Reader, tmpl, parent, pub, signer)
 	if err != nil {
 		return nil, err
 	}
